@@ -122,3 +122,238 @@ Proof.
     + repeat constructor; cbn; intuition discriminate.
     + cbn. repeat split; try discriminate; repeat constructor.
 Qed.
+
+(* ---- the tie to the source by translation: Gen/SpfsGen.v (regenerated from compute/super_reconciliation.py on every run) against Model/Spfs.v ---- *)
+
+From SR Require Import Gen.SpfsGen Proofs.SpfsGenProofs.
+
+Theorem C02_gen_sreconcile_extended_spfs_model :
+  forall (lca node_id : Type) (nid_eqb : node_id -> node_id -> bool),
+       (forall a b : node_id, reflect (a = b) (nid_eqb a b)) ->
+       forall (lcaobj : lca) (S : stree) (c : costs) (leafsp : node_id -> path)
+         (syn : node_id -> list fam) (O : EV.TreeNode node_id) (missing : node_id -> path)
+         (missing_syn : node_id -> list fam) (ord_infos : list ca -> list ca)
+         (oeqb : SG.spout_state -> SG.spout_state -> bool)
+         (syn_mem : (node_id -> list fam) -> node_id -> bool)
+         (syn_items : (node_id -> list fam) -> list (fam * list fam))
+         (set_order : list fam -> list fam)
+         (graph_of_prec : list (fam * list fam) -> list (fam * list fam))
+         (find_cycle_fn : list (fam * list fam) -> list fam) (orders : list (list fam)),
+       W nid_eqb S c leafsp syn O missing missing_syn ord_infos oeqb ->
+       spfs_orders syn O syn_mem syn_items set_order graph_of_prec orders ->
+       match spfs S c RALL true orders (EvalGenProofs.otree_of leafsp syn O) with
+       | Some e =>
+           exists outs : list SG.spout_state,
+             SG.gen_sreconcile_extended_spfs fam_eqb path_eqb nid_eqb (fun _ : lca => anc)
+               (fun _ : lca => lcp) (fun _ : lca => dist) (fun _ : lca => sembed3 S [])
+               (fun _ : lca => sanc) (fun _ : lca => comparable) oeqb missing missing_syn ord_infos
+               syn_mem syn_items set_order graph_of_prec find_cycle_fn
+               {|
+                 T3.EvalGen.sin_object_tree := O;
+                 T3.EvalGen.sin_species_lca := lcaobj;
+                 T3.EvalGen.sin_leaf_object_species := leafsp;
+                 T3.EvalGen.sin_costs := EvalGenProofs.stsocc c;
+                 T3.EvalGen.sin_leaf_syntenies := syn
+               |} (EntryGenProofs.prc RALL) = SG.Ok outs /\
+             Permutation.Permutation (map (lt_out nid_eqb O missing missing_syn) outs) (tags e) /\
+             (outs = [] <-> tags e = [])
+       | None =>
+           SG.gen_sreconcile_extended_spfs fam_eqb path_eqb nid_eqb (fun _ : lca => anc)
+             (fun _ : lca => lcp) (fun _ : lca => dist) (fun _ : lca => sembed3 S [])
+             (fun _ : lca => sanc) (fun _ : lca => comparable) oeqb missing missing_syn ord_infos
+             syn_mem syn_items set_order graph_of_prec find_cycle_fn
+             {|
+               T3.EvalGen.sin_object_tree := O;
+               T3.EvalGen.sin_species_lca := lcaobj;
+               T3.EvalGen.sin_leaf_object_species := leafsp;
+               T3.EvalGen.sin_costs := EvalGenProofs.stsocc c;
+               T3.EvalGen.sin_leaf_syntenies := syn
+             |} (EntryGenProofs.prc RALL) = SG.Err SG.AssertionError
+       end.
+Proof. exact @gen_sreconcile_extended_spfs_model. Qed.
+Print Assumptions C02_gen_sreconcile_extended_spfs_model.
+
+Theorem C02_gen_sreconcile_base_spfs_model :
+  forall (lca node_id : Type) (nid_eqb : node_id -> node_id -> bool),
+       (forall a b : node_id, reflect (a = b) (nid_eqb a b)) ->
+       forall (lcaobj : lca) (S : stree) (c : costs) (leafsp : node_id -> path)
+         (syn : node_id -> list fam) (O : EV.TreeNode node_id) (missing : node_id -> path)
+         (missing_syn : node_id -> list fam) (ord_infos : list ca -> list ca)
+         (oeqb : SG.spout_state -> SG.spout_state -> bool)
+         (syn_mem : (node_id -> list fam) -> node_id -> bool)
+         (syn_items : (node_id -> list fam) -> list (fam * list fam))
+         (set_order : list fam -> list fam)
+         (graph_of_prec : list (fam * list fam) -> list (fam * list fam))
+         (find_cycle_fn : list (fam * list fam) -> list fam) (orders : list (list fam)),
+       W nid_eqb S c leafsp syn O missing missing_syn ord_infos oeqb ->
+       spfs_orders syn O syn_mem syn_items set_order graph_of_prec orders ->
+       match spfs S c RALL false orders (EvalGenProofs.otree_of leafsp syn O) with
+       | Some e =>
+           exists outs : list SG.spout_state,
+             SG.gen_sreconcile_base_spfs fam_eqb path_eqb nid_eqb (fun _ : lca => anc)
+               (fun _ : lca => lcp) (fun _ : lca => dist) (fun _ : lca => sembed3 S [])
+               (fun _ : lca => sanc) (fun _ : lca => comparable) oeqb missing missing_syn ord_infos
+               syn_mem syn_items set_order graph_of_prec find_cycle_fn
+               {|
+                 T3.EvalGen.sin_object_tree := O;
+                 T3.EvalGen.sin_species_lca := lcaobj;
+                 T3.EvalGen.sin_leaf_object_species := leafsp;
+                 T3.EvalGen.sin_costs := EvalGenProofs.stsocc c;
+                 T3.EvalGen.sin_leaf_syntenies := syn
+               |} (EntryGenProofs.prc RALL) = SG.Ok outs /\
+             Permutation.Permutation (map (lt_out nid_eqb O missing missing_syn) outs) (tags e) /\
+             (outs = [] <-> tags e = [])
+       | None =>
+           SG.gen_sreconcile_base_spfs fam_eqb path_eqb nid_eqb (fun _ : lca => anc)
+             (fun _ : lca => lcp) (fun _ : lca => dist) (fun _ : lca => sembed3 S [])
+             (fun _ : lca => sanc) (fun _ : lca => comparable) oeqb missing missing_syn ord_infos
+             syn_mem syn_items set_order graph_of_prec find_cycle_fn
+             {|
+               T3.EvalGen.sin_object_tree := O;
+               T3.EvalGen.sin_species_lca := lcaobj;
+               T3.EvalGen.sin_leaf_object_species := leafsp;
+               T3.EvalGen.sin_costs := EvalGenProofs.stsocc c;
+               T3.EvalGen.sin_leaf_syntenies := syn
+             |} (EntryGenProofs.prc RALL) = SG.Err SG.AssertionError
+       end.
+Proof. exact @gen_sreconcile_base_spfs_model. Qed.
+Print Assumptions C02_gen_sreconcile_base_spfs_model.
+
+Theorem C02_gen_make_prec_graph_eq :
+  forall items : list (nat * list nat),
+       pcres (Stage1.P.gen_make_prec_graph Nat.eqb items) =
+       Toposort.make_prec_graph (map snd items).
+Proof. exact @gen_make_prec_graph_eq. Qed.
+Print Assumptions C02_gen_make_prec_graph_eq.
+
+Theorem C02_gen_root_orders_spec_perm :
+  forall (o : otree) (ord sord : list nat -> list nat) (items : list (nat * list nat)),
+       ToposortProofs.set_order ord ->
+       ToposortProofs.set_order sord ->
+       Permutation.Permutation (map snd items) (map (map N.to_nat) (leaf_syns o)) ->
+       (forall s : list fam, In s (leaf_syns o) -> s <> []) ->
+       exists (g : list (nat * list nat)) (R : list (list nat)) (orders : list (list fam)),
+         Stage1.P.gen_make_prec_graph Nat.eqb items = Stage1.P.Ok g /\
+         ToposortGenProofs.G.gen_toposort_all Nat.eqb ord (reorder sord g) =
+         ToposortGenProofs.G.Ok R /\
+         root_orders o = Some orders /\ Permutation.Permutation (map (map N.of_nat) R) orders.
+Proof. exact @gen_root_orders_spec_perm. Qed.
+Print Assumptions C02_gen_root_orders_spec_perm.
+
+Theorem C02_gen_compute_spfs_table_extended :
+  forall (lca node_id : Type) (nid_eqb : node_id -> node_id -> bool),
+       (forall a b : node_id, reflect (a = b) (nid_eqb a b)) ->
+       forall (lcaobj : lca) (S : stree) (c : costs) (leafsp : node_id -> path)
+         (syn : node_id -> list fam) (O : EV.TreeNode node_id) (ord : list fam) 
+         (rp : ret),
+       nn (c_hgt c) ->
+       NoDup (map EV.TreeNode_id (SG.TreeNode_postorder O)) ->
+       leaves_valid S leafsp O ->
+       exists tb : SG.TableGen.table_state SG.key ca,
+         SG.gen_compute_spfs_table N.eqb path_eqb nid_eqb (fun _ : lca => anc)
+           (fun _ : lca => dist) (fun _ : lca => sembed3 S [])
+           {|
+             T3.EvalGen.sin_object_tree := O;
+             T3.EvalGen.sin_species_lca := lcaobj;
+             T3.EvalGen.sin_leaf_object_species := leafsp;
+             T3.EvalGen.sin_costs := EvalGenProofs.stsocc c;
+             T3.EvalGen.sin_leaf_syntenies := syn
+           |} ord species_ext (masks_cb nid_eqb O) (EntryGenProofs.prc rp) = 
+         SG.Ok tb /\
+         inv3 rp tb /\
+         (forall u : SG.EvalGen.TreeNode node_id,
+          In u (SG.TreeNode_postorder O) ->
+          forall (s : path) (m : N),
+          let cellM :=
+            sread
+              (spfs_table S c rp true ord (nid_eqb (EV.TreeNode_id u) (EV.TreeNode_id O))
+                 (EvalGenProofs.otree_of leafsp syn u)) (s, m) in
+          val (gsem3 nid_eqb tb (EV.TreeNode_id u) s m) = val cellM /\
+          (tags (gsem3 nid_eqb tb (EV.TreeNode_id u) s m) = [] <-> tags cellM = []) /\
+          (rp = RALL ->
+           exists l : list stag,
+             tags (gsem3 nid_eqb tb (EV.TreeNode_id u) s m) = map tag_ca l /\
+             Permutation.Permutation l (tags cellM))).
+Proof. exact @gen_compute_spfs_table_extended. Qed.
+Print Assumptions C02_gen_compute_spfs_table_extended.
+
+Theorem C02_gen_compute_spfs_table_base :
+  forall (lca node_id : Type) (nid_eqb : node_id -> node_id -> bool),
+       (forall a b : node_id, reflect (a = b) (nid_eqb a b)) ->
+       forall (lcaobj : lca) (S : stree) (c : costs) (leafsp : node_id -> path)
+         (syn : node_id -> list fam) (O : EV.TreeNode node_id) (ord : list fam) 
+         (rp : ret) (d : list (node_id * path)),
+       nn (c_hgt c) ->
+       NoDup (map EV.TreeNode_id (SG.TreeNode_postorder O)) ->
+       leaves_valid S leafsp O ->
+       (forall u : SG.EvalGen.TreeNode node_id,
+        In u (SG.TreeNode_postorder O) ->
+        SG.dict_get nid_eqb d (EV.TreeNode_id u) =
+        Some (root (lca_rec (EvalGenProofs.otree_of leafsp syn u)))) ->
+       exists tb : SG.TableGen.table_state SG.key ca,
+         SG.gen_compute_spfs_table N.eqb path_eqb nid_eqb (fun _ : lca => anc)
+           (fun _ : lca => dist) (fun _ : lca => sembed3 S [])
+           {|
+             T3.EvalGen.sin_object_tree := O;
+             T3.EvalGen.sin_species_lca := lcaobj;
+             T3.EvalGen.sin_leaf_object_species := leafsp;
+             T3.EvalGen.sin_costs := EvalGenProofs.stsocc c;
+             T3.EvalGen.sin_leaf_syntenies := syn
+           |} ord
+           (fun (_ : SG.STree) (obj : SG.EvalGen.TreeNode node_id) =>
+            SG.base_species path_eqb nid_eqb (sembed3 S []) d obj) (masks_cb nid_eqb O)
+           (EntryGenProofs.prc rp) = SG.Ok tb /\
+         inv3 rp tb /\
+         (forall u : SG.EvalGen.TreeNode node_id,
+          In u (SG.TreeNode_postorder O) ->
+          forall (s : path) (m : N),
+          let cellM :=
+            sread
+              (spfs_table S c rp false ord (nid_eqb (EV.TreeNode_id u) (EV.TreeNode_id O))
+                 (EvalGenProofs.otree_of leafsp syn u)) (s, m) in
+          val (gsem3 nid_eqb tb (EV.TreeNode_id u) s m) = val cellM /\
+          (tags (gsem3 nid_eqb tb (EV.TreeNode_id u) s m) = [] <-> tags cellM = []) /\
+          (rp = RALL ->
+           exists l : list stag,
+             tags (gsem3 nid_eqb tb (EV.TreeNode_id u) s m) = map tag_ca l /\
+             Permutation.Permutation l (tags cellM))).
+Proof. exact @gen_compute_spfs_table_base. Qed.
+Print Assumptions C02_gen_compute_spfs_table_base.
+
+Theorem C02_gen_compute_spfs_entry_eq :
+  forall (lca node_id : Type) (nid_eqb : node_id -> node_id -> bool),
+       (forall a b : node_id, reflect (a = b) (nid_eqb a b)) ->
+       forall (lcaobj : lca) (rp : ret) (S : stree) (c : costs) (rs ST : SG.STree) 
+         (m : N) (nid : node_id) (L R : EV.TreeNode node_id) (tb : TG.table_state SG.key ca)
+         (e0 : entry stag) (MLL MLR : path -> list N),
+       rs_ok S rs ->
+       inv3 rp tb ->
+       (forall x : path, gkeys nid_eqb tb (EV.TreeNode_id L) x = map km (MLL x)) ->
+       (forall x : path, gkeys nid_eqb tb (EV.TreeNode_id R) x = map km (MLR x)) ->
+       gsem3 nid_eqb tb nid (SG.STree_id rs) m = ThlGenProofs.emap tag_ca e0 ->
+       let batch :=
+         sbatch_o S c rp (sub_of nid_eqb tb (EV.TreeNode_id L))
+           (sub_of nid_eqb tb (EV.TreeNode_id R)) (kl MLL (sids3 (SG.STree_levelorder ST)))
+           (kl MLR (sids3 (SG.STree_levelorder ST))) (SG.STree_id rs) m in
+       exists tb' : SG.TableGen.table_state SG.key ca,
+         SG.gen_compute_spfs_entry path_eqb nid_eqb (fun _ : lca => anc) 
+           (fun _ : lca => dist) (fun _ : lca => ST) lcaobj rs m (EV.TreeNode_node nid L R) tb
+           (EvalGenProofs.stsocc c) = SG.Ok (tb', tt) /\
+         inv3 rp tb' /\
+         gsem3 nid_eqb tb' nid (SG.STree_id rs) m =
+         ThlGenProofs.emap tag_ca (cell_upd3 rp e0 batch) /\
+         (forall (n : node_id) (x : path) (m' : N),
+          (n, x, m') <> (nid, SG.STree_id rs, m) ->
+          gsem3 nid_eqb tb' n x m' = gsem3 nid_eqb tb n x m') /\
+         (forall (n : node_id) (x : path),
+          (n, x) <> (nid, SG.STree_id rs) -> gkeys nid_eqb tb' n x = gkeys nid_eqb tb n x) /\
+         gkeys nid_eqb tb' nid (SG.STree_id rs) =
+         (if
+           has_finite batch &&
+           negb
+             (existsb (SG.key_eqb path_eqb nid_eqb (km m)) (gkeys nid_eqb tb nid (SG.STree_id rs)))
+          then gkeys nid_eqb tb nid (SG.STree_id rs) ++ [km m]
+          else gkeys nid_eqb tb nid (SG.STree_id rs)).
+Proof. exact @gen_compute_spfs_entry_eq. Qed.
+Print Assumptions C02_gen_compute_spfs_entry_eq.
+
